@@ -26,7 +26,7 @@ import (
 
 // Msg is one message of the stream. Kind: tpl (template Tpl), data (NRec records of template
 // Tpl, strings of StrLen bytes), and the invalid kinds badversion, notemplate, badtemplate,
-// shortlen (header length field Len < 20).
+// shortlen (header length field Len < 20), baddata (data set whose record does not fit).
 type Msg struct {
 	Kind   string `json:"kind"`
 	Tpl    int    `json:"tpl,omitempty"`
@@ -48,6 +48,9 @@ func TestMain(m *testing.M) {
 	glue.SilenceKlog()
 	glue.LoadRegistry()
 	if rp := ev.LoadReplay(); rp != nil {
+		if rp.Phase == "two_connections" {
+			ev.RunReplay(rp, runCase2)
+		}
 		ev.RunReplay(rp, func(c Case) *ev.Failure { return runCase(c, nil) })
 	}
 	rec = ev.New("C11", "streams of 1..6 messages built by the reference codec (templates; data sets of 1..n records, 20 bytes to ~65 KiB; optionally one invalid message - wrong version, data without template, undecodable template, header length < 20 or 0 - at any position; optionally an incomplete message at the end) x segmentations of the concatenated stream, presented to the collector's TCP connection handler through an in-memory connection whose Read returns exactly the generated segments: every single cut and every pair of cuts of short streams exhaustively, random multi-cuts (1-byte dribble, cuts inside the 4-byte length peek, cuts at message boundaries, coalesced) beyond; a second connection must then still be served; non-trivial = at least 2 messages and a cut strictly inside a message; distinct by hash of the case",
@@ -116,6 +119,12 @@ func build(c Case) (msgs [][]byte, valid []bool) {
 			if len(b) > 65535 {
 				b = ref.DataMessage(h, ref.Template{ID: id, Fields: fs[t]}, recs[:1])
 			}
+		case "baddata": // a data set for template 1 whose record is cut inside its last field
+			t, id = 1, 257
+			r := []ref.Value{{U: uint64(i)}, {B: []byte("abc")}, {U: 99}}
+			b = ref.DataMessage(h, ref.Template{ID: id, Fields: fs[1]}, [][]ref.Value{r})
+			b = gen.FixLengths(append([]byte(nil), b[:len(b)-2]...))
+			ok = false
 		case "badversion":
 			b = ref.TemplateMessage(h, ref.Template{ID: id, Fields: fs[t]})
 			b[1] = 9
@@ -147,10 +156,22 @@ type chunkConn struct {
 	chunks [][]byte
 	closed bool
 	reads  int
+	// gate: a nil chunk makes Read wait until the gate is closed (the peer pauses)
+	gate chan struct{}
 }
 
 func (c *chunkConn) Read(p []byte) (int, error) {
 	c.mu.Lock()
+	for len(c.chunks) > 0 && c.chunks[0] != nil && len(c.chunks[0]) == 0 {
+		c.chunks = c.chunks[1:]
+	}
+	if len(c.chunks) > 0 && c.chunks[0] == nil && c.gate != nil && !c.closed {
+		g := c.gate
+		c.mu.Unlock()
+		<-g
+		c.mu.Lock()
+		c.chunks = c.chunks[1:]
+	}
 	defer c.mu.Unlock()
 	if c.closed {
 		return 0, net.ErrClosed
@@ -300,6 +321,86 @@ func runCase(c Case, st *Stats) *ev.Failure {
 	return nil
 }
 
+// Case2 is the two-connection scenario: connection B (same observation domain and template id)
+// is paused between two data messages while connection A delivers a template, a data message and
+// then an undecodable message of kind Bad, segmented at Cuts; B must be unaffected.
+type Case2 struct {
+	Bad  string `json:"bad"`
+	Cuts []int  `json:"cuts"`
+}
+
+func runCase2(c Case2) *ev.Failure {
+	fs := fields()
+	cp, err := collector.InitCollectingProcess(collector.CollectorInput{Address: "127.0.0.1:0", Protocol: "tcp", MaxBufferSize: 65535})
+	if err != nil {
+		return ev.Failf("InitCollectingProcess: %v", err)
+	}
+	rec1 := func(k int) [][]ref.Value { return [][]ref.Value{{{U: uint64(k)}, {B: []byte("pod")}, {U: 7}}} }
+	tb := ref.TemplateMessage(ref.Header{Domain: 3, Seq: 500}, ref.Template{ID: 257, Fields: fs[1]})
+	d1 := ref.DataMessage(ref.Header{Domain: 3, Seq: 501}, ref.Template{ID: 257, Fields: fs[1]}, rec1(1))
+	d2 := ref.DataMessage(ref.Header{Domain: 3, Seq: 502}, ref.Template{ID: 257, Fields: fs[1]}, rec1(2))
+	connB := &chunkConn{chunks: [][]byte{append(append([]byte(nil), tb...), d1...), nil, d2}, gate: make(chan struct{})}
+	doneB := make(chan struct{})
+	go func() { defer close(doneB); cp.VerifHandleTCPClient(connB) }()
+	var gotB []*entities.Message
+	timer := time.NewTimer(15 * time.Second)
+	defer timer.Stop()
+	for len(gotB) < 2 {
+		select {
+		case m := <-cp.GetMsgChan():
+			gotB = append(gotB, m)
+		case <-timer.C:
+			return ev.Failf("connection B delivered %d of its first 2 messages", len(gotB))
+		}
+	}
+	// connection A
+	a := Case{Msgs: []Msg{{Kind: "tpl", Tpl: 1}, {Kind: "data", Tpl: 1, NRec: 1, StrLen: 3}, {Kind: c.Bad, Tpl: 0, Len: 16}}, Cuts: c.Cuts}
+	msgs, _ := build(a)
+	var stream []byte
+	for _, m := range msgs {
+		stream = append(stream, m...)
+	}
+	var chunks [][]byte
+	prev := 0
+	for _, cut := range c.Cuts {
+		if cut > prev && cut < len(stream) {
+			chunks = append(chunks, append([]byte(nil), stream[prev:cut]...))
+			prev = cut
+		}
+	}
+	chunks = append(chunks, append([]byte(nil), stream[prev:]...))
+	connA := &chunkConn{chunks: chunks}
+	gotA, why := serve(cp, connA)
+	if why != "" {
+		return ev.Failf("connection A: %s", why)
+	}
+	if len(gotA) != 2 {
+		return ev.Failf("connection A delivered %d messages, 2 precede its undecodable message", len(gotA))
+	}
+	if !connA.isClosed() {
+		return ev.Failf("connection A was not closed after its undecodable message")
+	}
+	// B continues
+	close(connB.gate)
+	for done := false; !done; {
+		select {
+		case m := <-cp.GetMsgChan():
+			gotB = append(gotB, m)
+		case <-doneB:
+			done = true
+		case <-timer.C:
+			return ev.Failf("connection B's handler did not finish")
+		}
+	}
+	if len(gotB) != 3 || gotB[2].GetSequenceNum() != 502 {
+		return ev.Failf("after connection A sent an undecodable message (%s) and was closed, connection B delivered %d of its 3 messages: other connections must be unaffected", c.Bad, len(gotB))
+	}
+	if f := glue.CheckDataMsg(gotB[2], fs[1], d2[20:], collector.DecodingModeStrict); f != nil {
+		return ev.Failf("connection B's last message: %s", f.Msg)
+	}
+	return nil
+}
+
 func lens(ch [][]byte) []int {
 	var out []int
 	for _, c := range ch {
@@ -344,6 +445,7 @@ func TestC11(t *testing.T) {
 		{{Kind: "tpl"}, {Kind: "shortlen", Len: 16}, {Kind: "data", NRec: 2}},
 		{{Kind: "tpl"}, {Kind: "shortlen", Len: 0}, {Kind: "data", NRec: 2}},
 		{{Kind: "shortlen", Len: 3}, {Kind: "tpl"}},
+		{{Kind: "tpl", Tpl: 1}, {Kind: "baddata"}, {Kind: "data", Tpl: 1, NRec: 1}},
 	}
 	if ev.Shard() <= 1 {
 		for _, ms := range short {
@@ -375,6 +477,24 @@ func TestC11(t *testing.T) {
 		}
 		rec.SetExhaustive()
 	}
+	// two connections sharing an observation domain and template id: every undecodable kind on A,
+	// every single cut of A's stream
+	for _, bad := range []string{"baddata", "badversion", "notemplate", "shortlen"} {
+		a := Case{Msgs: []Msg{{Kind: "tpl", Tpl: 1}, {Kind: "data", Tpl: 1, NRec: 1, StrLen: 3}, {Kind: bad, Len: 16}}}
+		m, _ := build(a)
+		n := 0
+		for _, b := range m {
+			n += len(b)
+		}
+		for cut := 0; cut < n; cut += 1 + (n / 40) {
+			c := Case2{Bad: bad, Cuts: []int{cut}}
+			rec.Case(ev.Hash(c), true, "two_connections", "invalid_"+bad)
+			if f := runCase2(c); f != nil {
+				rec.Violation("two_connections", c, f.Msg)
+				t.Fatalf("%s", f.Msg)
+			}
+		}
+	}
 	ev.Rapid(t, rec, "random", rec.Scale(6000, 500000), func(t *rapid.T) Case {
 		var c Case
 		n := rapid.IntRange(1, 6).Draw(t, "n")
@@ -384,7 +504,7 @@ func TestC11(t *testing.T) {
 		}
 		for i := 0; i < n; i++ {
 			if i == bad {
-				c.Msgs = append(c.Msgs, Msg{Kind: rapid.SampledFrom([]string{"badversion", "notemplate", "badtemplate", "shortlen"}).Draw(t, "badkind"), Tpl: rapid.IntRange(0, 1).Draw(t, "btpl"), Len: rapid.IntRange(0, 19).Draw(t, "blen")})
+				c.Msgs = append(c.Msgs, Msg{Kind: rapid.SampledFrom([]string{"badversion", "notemplate", "badtemplate", "shortlen", "baddata"}).Draw(t, "badkind"), Tpl: rapid.IntRange(0, 1).Draw(t, "btpl"), Len: rapid.IntRange(0, 19).Draw(t, "blen")})
 				continue
 			}
 			if i == 0 || rapid.IntRange(0, 3).Draw(t, "k") == 0 {
